@@ -614,10 +614,24 @@ class SimWorld:
         prog.default_timer = lambda: world.now
         dask.bag.from_sequence = from_sequence
         sys.stdout = _NullOut()
+        # the worker count is a knob the *user* turns through dask's configuration, and the
+        # machine size is what os.cpu_count() says: code that reads either must see the
+        # simulated values (seeded change C10-2 sized its partition ordering from them)
+        saved_cpu = (os.cpu_count, getattr(os, "process_cpu_count", None))
+        conf = {"scheduler": self.get}
+        if self.cfg.get("publish_workers", True):
+            conf["num_workers"] = self.workers
+        else:
+            os.cpu_count = lambda: world.workers
+            if saved_cpu[1] is not None:
+                os.process_cpu_count = lambda: world.workers
         try:
-            with dask.config.set(scheduler=self.get):
+            with dask.config.set(conf):
                 yield self
         finally:
+            os.cpu_count = saved_cpu[0]
+            if saved_cpu[1] is not None:
+                os.process_cpu_count = saved_cpu[1]
             sys.stdout = saved["stdout"]
             dask.local.queue_get = saved["queue_get"]
             dask.base.named_schedulers.clear()
@@ -648,6 +662,7 @@ def draw_world(ctx, src_dir, *, allow_faults, n_items, modes=MODES, force_mode=N
     cfg = {"tick": True}
     cfg["cost_spread"] = (1, 4, 40)[ch.draw(3, "cost_spread")]
     cfg["random_worker"] = ch.draw(2, "random_worker") == 1
+    cfg["publish_workers"] = ch.draw(3, "publish_workers") != 2  # 2: num_workers unset, cpu_count simulated
     ns = ch.draw(3, "n_stragglers")
     cfg["stragglers"] = set()
     for _ in range(min(ns, workers - 1)):
